@@ -4,6 +4,12 @@ CLAIMS = {
  'C01': {'text': 'Pipeline::process, the LogMessage accessors it uses and the contract-refinement lemma are proved against the sequential semantics for every list length, every scoped flag, every handler behaviour (handlers are "any handler" by interface contract); nesting of any depth follows by the refinement lemma.',
          'ref': 'DESIGN 3 C01',
          'note': 'Trusted: QList/QSharedPointer/QString models (sidecar part 1, models/); lowering rules; what individual built-in handlers compute is their own properties.'},
+ 'C16': {'text': 'LevelFilter::filter/priority over the full 5x5 domain; DuplicateFilter and SeqNumberAttr as one-step contracts plus 2- and 3-step lemmas over the real bodies from an arbitrary internal state (so every sequence follows by induction); RegExpFilter::filter = match(message).hasMatch().',
+         'ref': 'DESIGN 3 C16',
+         'note': 'Stated machine-range assumption: SeqNumberAttr::m_count < INT_MAX (after 2^31-1 messages m_count++ overflows). Regex verdicts are an uninterpreted function of (pattern, text) (A-regex). QString equality on content identities (null == empty as in Qt).'},
+ 'C17': {'text': 'Representation invariant Inv17 (list sorted by class rank, at most one formatter, new element placed after every element of its own class) required and re-established by every typed operation of SortedPipeline (appendAttrHandler, appendFilter, setFormatter, appendSink, appendPipeline, clear(type), clear<Class>s, clear()) on the lowered real code, for lists of any length: induction over all call histories. The four std::find_if loops are closed by loop contracts; their valid-range preconditions are obligations.',
+         'ref': 'DESIGN 3 C17',
+         'note': 'The list is abstracted by its run lengths per class (exact for sorted lists); QList::insert/remove semantics, QSet, QMutableListIterator are models (trusted). Plain Handler objects entering through the untyped append()/operator<< are outside the call alphabet of the property (precondition c[Handler]==0). Defect found and repaired by /repo commit 6eee10a (known_findings.json: fixed). Violations are replayed natively: all call sequences up to length 5 on the real class (ASan/UBSan).'},
 }
 NOT_APPLICABLE = {
  'C20': 'byte equality between a committed artifact and the output of a Python generator over the whole tree: no function of the library has a pre/postcondition that expresses it; deciding it means running the generator and diffing, which is a different technique.',
